@@ -9,25 +9,37 @@ open Percival.Proofs.EventsNet Percival.Proofs.EventsImm Percival.Proofs.EventsT
 
 /-! ## events_run_internal -/
 
-/-- the monitor will accept `ret rc` -/
+/-- the monitor will accept `ret rc` (`exit_ret`); a stop with value 0 is an interrupt request (what `events_spin`
+    tests before it calls `events_run_internal` again) -/
 def Exit (rc : Int) (m : C05.M) : Prop :=
   match m.stop with
-  | some c => rc = c
-  | none => rc = 0 ∧ ((m.startIntr = false ∧ m.intr = false) →
+  | some c => rc = c ∧ (c = 0 → m.intr = true)
+  | none => rc = 0 ∧ (m.intr = false →
       ¬ (m.startRunnable = true ∧ m.fired = 0) ∧ m.mustFire = false ∧
       ¬ (m.polled = true ∧ m.nets.any (·.ready) = true) ∧ ¬ (m.polled = true ∧ C05.expired m = true))
 
-theorem exit_stop {m : C05.M} {c : Int} (h : m.stop = some c) : Exit c m := by
-  unfold Exit; rw [h]
+theorem exit_ret {rc : Int} {m : C05.M} (h : Exit rc m) :
+    match m.stop with
+    | some c => rc = c
+    | none => rc = 0 ∧ ((m.startIntr = false ∧ m.intr = false) →
+        ¬ (m.startRunnable = true ∧ m.fired = 0) ∧ m.mustFire = false ∧
+        ¬ (m.polled = true ∧ m.nets.any (·.ready) = true) ∧ ¬ (m.polled = true ∧ C05.expired m = true)) := by
+  unfold Exit at h
+  cases hs : m.stop with
+  | some c => rw [hs] at h; exact h.1
+  | none => rw [hs] at h; exact ⟨h.1, fun hh => h.2 hh.2⟩
+
+theorem exit_stop {m : C05.M} {c : Int} (h : m.stop = some c) (hi : c = 0 → m.intr = true) : Exit c m := by
+  unfold Exit; rw [h]; exact ⟨rfl, hi⟩
 
 theorem exit_intr {m : C05.M} (h : m.stop = none) (hi : m.intr = true) : Exit 0 m := by
   unfold Exit; rw [h]
-  exact ⟨rfl, fun hh => by rw [hi] at hh; cases hh.2⟩
+  exact ⟨rfl, fun hh => by rw [hi] at hh; cases hh⟩
 
 theorem exit_afterCb_ne {X : C05.M → Prop} {rc : Int} {m : C05.M} (h : AfterCb X rc m) (hrc : rc ≠ 0) : Exit rc m := by
   obtain ⟨_, _, _, hst⟩ := h
   rw [if_pos hrc] at hst
-  exact exit_stop hst
+  exact exit_stop hst (fun h => absurd h hrc)
 
 /-- the condition at the top of the `do { … } while (1)` loop -/
 structure LoopTop (m : C05.M) (s : State) : Prop where
@@ -104,7 +116,7 @@ theorem mainLoop_weak (C : TQContract) : ∀ (f : Nat) (s : State), Good C LoopT
       have hmi : m.intr = true := by rw [hr.intr]; exact hi
       rcases htop.stopish with h0 | ⟨h0, _⟩
       · exact exit_intr h0 hmi
-      · exact exit_stop h0
+      · exact exit_stop h0 (fun _ => hmi)
     · have hi' : s.intr = false := by simpa using hi
       rw [if_neg hi]
       have hmi : m.intr = false := by rw [hr.intr]; exact hi'
@@ -132,7 +144,8 @@ theorem mainLoop_weak (C : TQContract) : ∀ (f : Nat) (s : State), Good C LoopT
             · exact h2 h0 hsr
           -- the zero-timeout poll
           obtain ⟨m3, hp⟩ := pollLoop_post C none ({ s with imm := q', net := n2 } : State).pollq (selectTimeout (some (0, 0)))
-            { s with imm := q', net := n2 } m hf hm hr2 hstop (by rw [selectTimeout_zero]; exact checkPoll_zero m)
+            { s with imm := q', net := n2 } m hf hm hr2 hstop (by rw [selectTimeout_zero]; exact mayBlock_zero m)
+            (by rw [selectTimeout_zero]; exact checkPoll_zero m)
             (by show selectTimeout (some (0, 0)) ≤ 0; rw [selectTimeout_zero]; omega)
           have hs3 : netSelect { s with imm := q', net := n2 } (some (0, 0)) =
               { pollLoop { s with imm := q', net := n2 } none (selectTimeout (some (0, 0))) s.pollq with
@@ -222,7 +235,7 @@ theorem immLoop_weak (C : TQContract) : ∀ (f : Nat) (s : State) (id : Nat), Fi
         · rw [if_pos hi]
           have hmi : m.intr = true := by rw [hr.intr]; exact hi
           rw [if_pos hmi] at hst
-          exact Or.inl ⟨hf1, m, hm, hr, exit_stop hst⟩
+          exact Or.inl ⟨hf1, m, hm, hr, exit_stop hst (fun _ => hmi)⟩
         · rw [if_neg hi]
           have hmi : ¬ (m.intr = true) := by rw [hr.intr]; exact hi
           rw [if_neg hmi] at hst
@@ -250,6 +263,7 @@ structure Begun (m : C05.M) : Prop where
   mf : m.mustFire = false
   polled : m.polled = false
   sr : m.startRunnable = C05.runnable m
+  blk : (m.spin && m.done) = false
 
 theorem runInternal_weak (C : TQContract) (fuel : Nat) (s : State) (h : Good C (fun m _ => Begun m) s) :
     Weak C (fun m _ => Exit (runInternal fuel s).2 m) (runInternal fuel s).1 := by
@@ -262,7 +276,7 @@ theorem runInternal_weak (C : TQContract) (fuel : Nat) (s : State) (h : Good C (
     have hw := waitOk_first hr1 himm
     obtain ⟨m2, hp⟩ := pollLoop_post C (waitStart ({ s with imm := q' } : State) (timerMin ({ s with imm := q' } : State)))
       ({ s with imm := q' } : State).pollq (selectTimeout (timerMin ({ s with imm := q' } : State)))
-      { s with imm := q' } m hf hm hr1 hb.stop hc hw
+      { s with imm := q' } m hf hm hr1 hb.stop (by unfold MayBlock; rw [hb.blk]; rfl) hc hw
     generalize hwt : waitStart ({ s with imm := q' } : State) (timerMin ({ s with imm := q' } : State)) = wt at hp
     have hs2 : netSelect { s with imm := q' } (timerMin { s with imm := q' }) =
         { pollLoop { s with imm := q' } wt (selectTimeout (timerMin { s with imm := q' })) s.pollq with
@@ -291,7 +305,7 @@ theorem runInternal_weak (C : TQContract) (fuel : Nat) (s : State) (h : Good C (
 
 /-- the monitor's state after `runBegin` -/
 def begunM (m : C05.M) : C05.M :=
-  { m with inRun := true, fired := 0, polled := false, looked := false, startRunnable := C05.runnable m, startIntr := m.intr, mustFire := false, stop := none }
+  { m with inRun := true, fired := 0, polled := false, looked := false, startRunnable := C05.runnable m, startIntr := m.intr, mustFire := false, stop := none, spin := false }
 
 theorem eventsRun_weak (C : TQContract) (fuel : Nat) (s : State) (h : Good C (fun _ _ => True) s) :
     Weak C (fun _ _ => True) (eventsRun fuel s) := by
@@ -299,10 +313,10 @@ theorem eventsRun_weak (C : TQContract) (fuel : Nat) (s : State) (h : Good C (fu
   unfold eventsRun
   dsimp only
   have h0 : Good C (fun m _ => Begun m) (emit { s with cbcount := 0 } .runBegin) := by
-    refine ⟨hf, begunM m, ?_, ?_, ⟨rfl, rfl, rfl, rfl, rfl⟩⟩
+    refine ⟨hf, begunM m, ?_, ?_, ⟨rfl, rfl, rfl, rfl, rfl, rfl⟩⟩
     · show C05.run {} (_ :: s.trace).reverse = _
       rw [run_snoc _ m _ _ hm]; rfl
-    · exact ⟨hr.clock, hr.intr, hr.imm, hr.immIds, hr.net, hr.tm, hr.disjIN, hr.disjIT, hr.disjNT⟩
+    · exact ⟨hr.clock, hr.intr, hr.imm, hr.immIds, hr.net, hr.tm, hr.disjIN, hr.disjIT, hr.disjNT, hr.done⟩
   have h1 := runInternal_weak C fuel _ h0
   cases hri : runInternal fuel (emit { s with cbcount := 0 } .runBegin) with
   | mk s1 rc =>
@@ -312,10 +326,255 @@ theorem eventsRun_weak (C : TQContract) (fuel : Nat) (s : State) (h : Good C (fu
     · rw [if_neg (by simp [hf1])]
       refine Or.inl ⟨hf1, { m1 with inRun := false, intr := false, stop := none, mustFire := false }, ?_, ?_, trivial⟩
       · show C05.run {} (_ :: s1.trace).reverse = _
-        rw [run_snoc _ m1 _ _ hm1]; exact ret_ok m1 rc hex
-      · exact ⟨hr1.clock, rfl, hr1.imm, hr1.immIds, hr1.net, hr1.tm, hr1.disjIN, hr1.disjIT, hr1.disjNT⟩
+        rw [run_snoc _ m1 _ _ hm1]; exact ret_ok m1 rc (exit_ret hex)
+      · exact ⟨hr1.clock, rfl, hr1.imm, hr1.immIds, hr1.net, hr1.tm, hr1.disjIN, hr1.disjIT, hr1.disjNT, hr1.done⟩
     · rw [if_pos hf1]
       exact Or.inr ⟨hf1, ha⟩
+
+/-! ## events_spin: a loop around events_run_internal -/
+
+theorem Weak.mono {C : TQContract} {P Q : C05.M → State → Prop} {s : State} (h : Weak C P s)
+    (hpq : ∀ m, Rel C m s → P m s → Q m s) : Weak C Q s := by
+  rcases h with h | h
+  · exact Or.inl (h.mono hpq)
+  · exact Or.inr h
+
+/-- what a turn of the loop of `events_spin` starts from: no stop pending, no wake-up owed, and the call is allowed
+    to wait in poll (`done` is not set).  Unlike right after `runBegin`, callbacks may have run and polls may have been
+    answered in earlier turns. -/
+structure BegunS (m : C05.M) : Prop where
+  stop : m.stop = none
+  mf : m.mustFire = false
+  sr : m.fired = 0 → m.startRunnable = true → C05.runnable m = true
+  blk : (m.spin && m.done) = false
+
+/-- what a turn ends with -/
+def ExitS (rc : Int) (m : C05.M) : Prop :=
+  match m.stop with
+  | some c => rc = c ∧ (c = 0 → m.intr = true)
+  | none => rc = 0 ∧ (m.intr = false → ¬ (m.startRunnable = true ∧ m.fired = 0) ∧ m.mustFire = false)
+
+theorem exitS_of_exit {rc : Int} {m : C05.M} (h : Exit rc m) : ExitS rc m := by
+  unfold Exit at h
+  unfold ExitS
+  cases hs : m.stop with
+  | some c => rw [hs] at h; exact h
+  | none => rw [hs] at h; exact ⟨h.1, fun hi => ⟨(h.2 hi).1, (h.2 hi).2.1⟩⟩
+
+/-- the immediate-only path of a later turn: polls may have been answered before -/
+theorem immLoop_weakS (C : TQContract) : ∀ (f : Nat) (s : State) (id : Nat), Fireable C (fun _ => True) s id →
+    Weak C (fun m _ => ExitS (immLoop f s id).2 m) (immLoop f s id).1 := by
+  intro f
+  induction f with
+  | zero => intro s id h; exact weak_faulted C _ h.adm
+  | succ f ih =>
+    intro s id h
+    have h1 := doevent_good C (fun _ => True) (fun _ _ _ _ => trivial) (fun _ _ _ => trivial) s id h
+    unfold immLoop
+    cases hd : doevent s id with
+    | mk s1 rc =>
+      rw [hd] at h1
+      dsimp only at h1 ⊢
+      by_cases hrc : rc ≠ 0
+      · rw [if_pos hrc]
+        exact Or.inl (h1.mono (fun m _ hp => exitS_of_exit (exit_afterCb_ne hp hrc)))
+      · rw [if_neg hrc]
+        have hrc0 : rc = 0 := by simpa using hrc
+        subst hrc0
+        obtain ⟨hf1, m, hm, hr, hfired, hmf, _, hst⟩ := h1
+        rw [if_neg (by simp)] at hst
+        by_cases hi : s1.intr = true
+        · rw [if_pos hi]
+          have hmi : m.intr = true := by rw [hr.intr]; exact hi
+          rw [if_pos hmi] at hst
+          exact Or.inl ⟨hf1, m, hm, hr, exitS_of_exit (exit_stop hst (fun _ => hmi))⟩
+        · rw [if_neg hi]
+          have hmi : ¬ (m.intr = true) := by rw [hr.intr]; exact hi
+          rw [if_neg hmi] at hst
+          rw [if_neg (by simp [hf1])]
+          rcases immGetS_cases hr hst with ⟨q', heq, hr1, himm⟩ | ⟨q', id', m', heq, hs, hr1, hfd⟩
+          · rw [heq]; dsimp only
+            refine Or.inl ⟨hf1, m, hm, hr1, ?_⟩
+            show ExitS 0 m
+            unfold ExitS
+            rw [hst]
+            exact ⟨rfl, fun _ => ⟨by rintro ⟨_, h0⟩; omega, hmf⟩⟩
+          · rw [heq]; dsimp only
+            apply ih
+            obtain ⟨f1, f2, f3, _, f5, _⟩ := hfd
+            exact ⟨hf1, m, m', hm, hs, hr1, by rw [f1]; exact hst, by rw [f2]; omega, f3, trivial⟩
+
+/-- one turn of the loop of `events_spin` -/
+theorem runInternal_weakS (C : TQContract) (fuel : Nat) (s : State) (h : Good C (fun m _ => BegunS m) s) :
+    Weak C (fun m _ => ExitS (runInternal fuel s).2 m) (runInternal fuel s).1 := by
+  obtain ⟨hf, m, hm, hr, hb⟩ := h
+  unfold runInternal
+  rcases immGetS_cases hr hb.stop with ⟨q', heq, hr1, himm⟩ | ⟨q', id, m', heq, hs, hr1, hfd⟩
+  · rw [heq]; dsimp only
+    have hc := checkPoll_first hr1 himm
+    have hw := waitOk_first hr1 himm
+    obtain ⟨m2, hp⟩ := pollLoop_post C (waitStart ({ s with imm := q' } : State) (timerMin ({ s with imm := q' } : State)))
+      ({ s with imm := q' } : State).pollq (selectTimeout (timerMin ({ s with imm := q' } : State)))
+      { s with imm := q' } m hf hm hr1 hb.stop (by unfold MayBlock; rw [hb.blk]; rfl) hc hw
+    generalize hwt : waitStart ({ s with imm := q' } : State) (timerMin ({ s with imm := q' } : State)) = wt at hp
+    have hs2 : netSelect { s with imm := q' } (timerMin { s with imm := q' }) =
+        { pollLoop { s with imm := q' } wt (selectTimeout (timerMin { s with imm := q' })) s.pollq with
+          net := { (pollLoop { s with imm := q' } wt (selectTimeout (timerMin { s with imm := q' })) s.pollq).net with
+            scan := topScan (pollLoop { s with imm := q' } wt (selectTimeout (timerMin { s with imm := q' })) s.pollq).net } } := by
+      rw [← hwt]; rfl
+    rw [hs2]
+    refine Weak.mono (mainLoop_weak C fuel _ ?_) (fun m _ h => exitS_of_exit h)
+    refine ⟨hp.fault, m2, hp.run, hp.rel, ?_, Or.inr ⟨rfl, ?_, ?_⟩⟩
+    · rcases hp.stop with h | ⟨_, h⟩
+      · exact Or.inl h
+      · exact Or.inr h
+    · intro h0 hsr
+      rw [hp.fired] at h0; rw [hp.sr] at hsr
+      exact runnable_mono hp.imms hp.tms hp.clock (hb.sr h0 hsr)
+    · intro hmf
+      rcases hp.mf hmf with h | ⟨_, h⟩
+      · rw [hb.mf] at h; cases h
+      · exact h
+  · rw [heq]; dsimp only
+    apply immLoop_weakS
+    obtain ⟨f1, f2, f3, _, f5, _⟩ := hfd
+    exact ⟨hf, m, m', hm, hs, hr1, by rw [f1]; exact hb.stop, by rw [f2]; omega, f3, trivial⟩
+
+/-- the invariant of the loop of `events_spin`, `rc` being the C variable when the condition is tested: either
+    dispatching has to stop with that value (a status; 0 for an interrupt request or because `done` was set
+    before the call), or the last turn returned 0 and owes nothing -/
+def SpinTop (rc : Int) (m : C05.M) : Prop :=
+  match m.stop with
+  | some c => rc = c ∧ (c = 0 → m.intr = true ∨ m.done = true)
+  | none => rc = 0 ∧ (m.intr = false → m.mustFire = false ∧ (m.fired = 0 → m.startRunnable = true → C05.runnable m = true))
+
+theorem spinTop_of_exitS {rc : Int} {m : C05.M} (h : ExitS rc m) : SpinTop rc m := by
+  unfold ExitS at h
+  unfold SpinTop
+  cases hs : m.stop with
+  | some c => rw [hs] at h; exact ⟨h.1, fun hc => Or.inl (h.2 hc)⟩
+  | none =>
+    rw [hs] at h
+    exact ⟨h.1, fun hi => ⟨(h.2 hi).2, fun h0 hsr => absurd ⟨hsr, h0⟩ (h.2 hi).1⟩⟩
+
+/-- the monitor will accept `spinRet rc` -/
+def SpinExit (rc : Int) (m : C05.M) : Prop :=
+  match m.stop with
+  | some c => rc = c
+  | none => rc = 0 ∧ (m.done = true ∨ m.intr = true)
+
+theorem spinRet_ok (m : C05.M) (rc : Int) (h : SpinExit rc m) :
+    C05.step m (.spinRet rc) =
+      .ok { m with inRun := false, intr := false, stop := none, mustFire := false, spin := false, done := false } := by
+  unfold SpinExit at h
+  cases hs : m.stop with
+  | some c =>
+    rw [hs] at h
+    subst h
+    simp only [C05.step, hs, ne_eq, not_true_eq_false, if_false]
+    rfl
+  | none =>
+    rw [hs] at h
+    obtain ⟨h0, hd⟩ := h
+    subst h0
+    have hb : (!m.done && !m.intr) = false := by
+      rcases hd with h | h <;> simp [h]
+    simp only [C05.step, hs, ne_eq, not_true_eq_false, if_false, hb, Bool.false_eq_true]
+    rfl
+
+theorem spinLoop_fault (C : TQContract) (P : C05.M → State → Prop) (fuel : Nat) (n : Nat) (s : State) (rc : Int)
+    (hf : s.fault = true) (ha : Adm s) : Weak C P (spinLoop fuel n s rc).1 := by
+  cases n with
+  | zero => exact weak_faulted C _ ha
+  | succ n =>
+    unfold spinLoop
+    rw [if_neg (by rw [hf]; simp)]
+    exact Or.inr ⟨hf, ha⟩
+
+/-- the loop of `events_spin`: whatever it returns, the monitor will accept that return value -/
+theorem spinLoop_weak (C : TQContract) (fuel : Nat) : ∀ (n : Nat) (s : State) (rc : Int),
+    Good C (fun m _ => SpinTop rc m) s →
+    Weak C (fun m _ => SpinExit (spinLoop fuel n s rc).2 m) (spinLoop fuel n s rc).1 := by
+  intro n
+  induction n with
+  | zero => intro s rc h; exact weak_faulted C _ h.adm
+  | succ n ih =>
+    intro s rc h
+    obtain ⟨hf, m, hm, hr, ht⟩ := h
+    unfold spinLoop
+    by_cases hc : s.done = false ∧ rc = 0 ∧ s.intr = false ∧ s.fault = false
+    · rw [if_pos hc]
+      obtain ⟨hd, hrc, hi, _⟩ := hc
+      have hmd : m.done = false := by rw [hr.done]; exact hd
+      have hmi : m.intr = false := by rw [hr.intr]; exact hi
+      have hb : BegunS m := by
+        unfold SpinTop at ht
+        cases hs : m.stop with
+        | some c =>
+          rw [hs] at ht
+          obtain ⟨h1, h2⟩ := ht
+          rcases h2 (by omega) with h | h
+          · rw [hmi] at h; cases h
+          · rw [hmd] at h; cases h
+        | none =>
+          rw [hs] at ht
+          exact ⟨hs, (ht.2 hmi).1, (ht.2 hmi).2, by rw [hmd]; simp⟩
+      rcases runInternal_weakS C fuel s ⟨hf, m, hm, hr, hb⟩ with hg | ⟨hf1, ha⟩
+      · exact ih _ _ (hg.mono (fun m' _ hp => spinTop_of_exitS hp))
+      · exact spinLoop_fault C _ fuel n _ _ hf1 ha
+    · rw [if_neg hc]
+      refine Or.inl ⟨hf, m, hm, hr, ?_⟩
+      show SpinExit rc m
+      unfold SpinTop at ht
+      unfold SpinExit
+      cases hs : m.stop with
+      | some c => rw [hs] at ht; exact ht.1
+      | none =>
+        rw [hs] at ht
+        refine ⟨ht.1, ?_⟩
+        rw [hr.done, hr.intr]
+        cases hd : s.done with
+        | true => exact Or.inl rfl
+        | false =>
+          cases hi : s.intr with
+          | true => exact Or.inr rfl
+          | false => exact absurd ⟨hd, ht.1, hi, hf⟩ hc
+
+/-- the monitor's state after `spinBegin` -/
+def spunM (m : C05.M) : C05.M :=
+  { m with inRun := true, fired := 0, polled := false, looked := false, startRunnable := C05.runnable m, startIntr := m.intr,
+           mustFire := false, stop := if m.done then some 0 else none, spin := true }
+
+theorem eventsSpin_weak (C : TQContract) (fuel : Nat) (s : State) (h : Good C (fun _ _ => True) s) :
+    Weak C (fun _ _ => True) (eventsSpin fuel s) := by
+  obtain ⟨hf, m, hm, hr, _⟩ := h
+  unfold eventsSpin
+  dsimp only
+  have h0 : Good C (fun m _ => SpinTop 0 m) (emit { s with cbcount := 0 } .spinBegin) := by
+    refine ⟨hf, spunM m, ?_, ?_, ?_⟩
+    · show C05.run {} (_ :: s.trace).reverse = _
+      rw [run_snoc _ m _ _ hm]; rfl
+    · exact ⟨hr.clock, hr.intr, hr.imm, hr.immIds, hr.net, hr.tm, hr.disjIN, hr.disjIT, hr.disjNT, hr.done⟩
+    · show SpinTop 0 (spunM m)
+      unfold SpinTop
+      cases hd : m.done with
+      | true =>
+        have : (spunM m).stop = some 0 := by simp [spunM, hd]
+        rw [this]
+        exact ⟨rfl, fun _ => Or.inr hd⟩
+      | false =>
+        have : (spunM m).stop = none := by simp [spunM, hd]
+        rw [this]
+        exact ⟨rfl, fun _ => ⟨rfl, fun _ h => h⟩⟩
+  rcases spinLoop_weak C fuel spinFuel _ 0 h0 with ⟨hf1, m1, hm1, hr1, hex⟩ | ⟨hf1, ha⟩
+  · rw [if_neg (by simp [hf1])]
+    refine Or.inl ⟨hf1, { m1 with inRun := false, intr := false, stop := none, mustFire := false, spin := false, done := false },
+      ?_, ?_, trivial⟩
+    · show C05.run {} (_ :: _).reverse = _
+      rw [run_snoc _ m1 _ _ hm1]; exact spinRet_ok m1 _ hex
+    · exact ⟨hr1.clock, rfl, hr1.imm, hr1.immIds, hr1.net, hr1.tm, hr1.disjIN, hr1.disjIT, hr1.disjNT, rfl⟩
+  · rw [if_pos hf1]
+    exact Or.inr ⟨hf1, ha⟩
 
 theorem applyOp_fault (s : State) (o : Op) (h : s.fault = true) : applyOp s o = s := by
   unfold applyOp; simp [h]
@@ -331,12 +590,12 @@ theorem stepTop_weak (C : TQContract) (fuel : Nat) (s : State) (t : Top) (h : We
   | script id sc =>
     show Weak C _ { s with scripts := (id, sc) :: s.scripts }
     rcases h with ⟨hf, m, hm, hr, _⟩ | ⟨hf, ha⟩
-    · exact Or.inl ⟨hf, m, hm, rel_of_eq hr rfl rfl rfl rfl rfl rfl rfl, trivial⟩
+    · exact Or.inl ⟨hf, m, hm, rel_of_eq hr rfl rfl rfl rfl rfl rfl rfl rfl, trivial⟩
     · exact Or.inr ⟨hf, ha⟩
   | pollAns a =>
     show Weak C _ { s with pollq := s.pollq ++ [a] }
     rcases h with ⟨hf, m, hm, hr, _⟩ | ⟨hf, ha⟩
-    · exact Or.inl ⟨hf, m, hm, rel_of_eq hr rfl rfl rfl rfl rfl rfl rfl, trivial⟩
+    · exact Or.inl ⟨hf, m, hm, rel_of_eq hr rfl rfl rfl rfl rfl rfl rfl rfl, trivial⟩
     · exact Or.inr ⟨hf, ha⟩
   | run =>
     show Weak C _ (if s.fault then s else eventsRun fuel s)
@@ -344,10 +603,16 @@ theorem stepTop_weak (C : TQContract) (fuel : Nat) (s : State) (t : Top) (h : We
     · rw [if_pos hf]; exact h
     · rw [if_neg hf]
       exact eventsRun_weak C fuel s (good_of_weak h (by simpa using hf))
+  | spin =>
+    show Weak C _ (if s.fault then s else eventsSpin fuel s)
+    by_cases hf : s.fault = true
+    · rw [if_pos hf]; exact h
+    · rw [if_neg hf]
+      exact eventsSpin_weak C fuel s (good_of_weak h (by simpa using hf))
 
 theorem rel_init (C : TQContract) : Rel C {} {} := by
   refine ⟨rfl, rfl, rq_init, by simp [IdsNodup], ⟨inv_init, by simp, ?_, by simp⟩,
-    ⟨⟨C.empty, by simp, by simp, ?_, by simp, by simp⟩, by simp, ?_, by simp⟩, by simp, by simp, by simp⟩
+    ⟨⟨C.empty, by simp, by simp, ?_, by simp, by simp⟩, by simp, ?_, by simp⟩, by simp, by simp, by simp, rfl⟩
   · intro id fd d; simp [slot]
   · show TimerQueue.empty.h.a.toList.Perm []
     simp [TimerQueue.empty, Heap.empty]
